@@ -16,6 +16,8 @@ demo_with = subprocess.run(["/venv/bin/python", "demo.py"], cwd=d, env=env, stdo
 import tempfile
 tmp = tempfile.mkdtemp(prefix="seeddemo-")
 shutil.copy(os.path.join(d, "demo.py"), tmp)
+if os.path.isdir("/repo/tests"):          # demos may read data files (the official schemas) next to themselves
+    os.symlink("/repo/tests", os.path.join(tmp, "tests"))
 demo_without = subprocess.run(["/venv/bin/python", "demo.py"], cwd=tmp, env=dict(os.environ, PYTHONPATH="/repo"), stdout=subprocess.PIPE, stderr=subprocess.STDOUT)
 shutil.rmtree(tmp, ignore_errors=True)
 res = {"tests_with_change": tests, "demo_rc_with_change": demo_with.returncode, "demo_rc_without_change": demo_without.returncode, "checks": {}}
